@@ -374,3 +374,225 @@ theorem build_total (h : List Nat) (len A : Nat) (w0 : Writer)
       exact ⟨_, _, _, hb⟩
 
 end BV.MetaBlock
+
+namespace BV.MetaBlock
+open BV.Gen BV.Bits BV.Huffman BV.PrefixArith BV.Recoder
+open BV.Lemmas.HuffmanCreate BV.Lemmas.HuffmanEntry BV.Lemmas.HuffmanSimple BV.Lemmas.HuffmanFastStore
+open BV.Lemmas.HuffmanEntryPoints
+
+/-- the `while total != 0` scan of the fast builder with `total` = the sum of the histogram never runs off
+the end of the histogram -/
+theorem fastScan_total : ∀ (hs : List Nat) (total len count : Nat) (symbols : List Nat), total = hs.sum →
+    hs.sum < u64 → ∃ r, fastScan hs total len count symbols = .ok r := by
+  intro hs
+  induction hs with
+  | nil => intro total len count symbols ht _; simp [fastScan, ht]
+  | cons x xs ih =>
+    intro total len count symbols ht hlt
+    simp only [List.sum_cons] at ht hlt
+    unfold fastScan
+    by_cases h0 : total = 0
+    · simp [h0]
+    · rw [if_neg h0]
+      by_cases hx : x ≠ 0
+      · rw [if_pos hx]
+        apply ih
+        · have : total + u64 - x = xs.sum + u64 := by omega
+          rw [this, Nat.add_mod_right, Nat.mod_eq_of_lt (by omega)]
+        · omega
+      · rw [if_neg hx]
+        apply ih
+        · have : x = 0 := by simpa using hx
+          omega
+        · omega
+
+/-- **`BrotliBuildAndStoreHuffmanTreeFast` as the fast writer calls it does not panic** -/
+theorem fast_total (h : List Nat) (A n : Nat) (w0 : Writer) (h704 : h.length ≤ 704) (hsum : h.sum ≤ 2 ^ 25)
+    (hA1 : 1 ≤ A) (hAn : A ≤ n) (hA : A ≤ 65536) (hz : ∀ i, A ≤ i → h.getD i 0 = 0) :
+    ∃ d b w1, buildAndStoreHuffmanTreeFast h h.sum (alphabetBits A) (List.replicate n 0) (List.replicate n 0) w0
+      = .ok (d, b, w1) := by
+  have p25 : (2 : Nat) ^ 25 = 33554432 := by decide
+  obtain ⟨⟨count, symbols, length⟩, hscan⟩ := fastScan_total h h.sum 0 0 [0, 0, 0, 0] rfl (by unfold u64; omega)
+  obtain ⟨_, hlh, hcnt, hsym⟩ := fastScan_full h h h.sum 0 0 [0, 0, 0, 0] count length symbols rfl hscan
+  simp only [Nat.sub_zero, Nat.zero_add, Nat.zero_le, Nat.max_eq_right] at hlh hcnt hsym
+  have hlast := fastScan_last h h h.sum 0 0 [0, 0, 0, 0] count length symbols rfl (fun _ => Or.inl rfl) hscan
+  have hlA : length ≤ A := by
+    rcases hlast with h0 | h0
+    · omega
+    · by_cases hc : length ≤ A
+      · exact hc
+      · exact absurd (hz (length - 1) (by omega)) h0
+  have hu : ∀ s ∈ ascNZ h length 0, s < A := by
+    intro s hs
+    obtain ⟨_, h2, _⟩ := (mem_ascNZ h length 0 s).mp hs
+    omega
+  by_cases hc1 : count ≤ 1
+  · have hsym' := hsym (by omega)
+    have hs0 : symbols.getD 0 0 = (ascNZ h length 0).headD 0 := by
+      rw [hsym']
+      match hL : ascNZ h length 0, (show (ascNZ h length 0).length ≤ 1 by omega) with
+      | [], _ => rfl
+      | [a], _ => rfl
+      | _ :: _ :: _, hn' => simp at hn'
+    have hh : symbols.getD 0 0 < A := by
+      rw [hs0]
+      match hL : ascNZ h length 0 with
+      | [] => exact hA1
+      | a :: _ => exact hu a (by rw [hL]; simp)
+    obtain ⟨sbits, _, hb, _⟩ := fast_single_roundtrip h h.sum A (List.replicate n 0) (List.replicate n 0) w0 []
+      count length symbols hscan hc1 hh hA1 hA (by rw [List.length_replicate]; omega)
+      (by rw [List.length_replicate]; omega)
+    exact ⟨_, _, _, hb⟩
+  · by_cases hc4 : count ≤ 4
+    · obtain ⟨d1, b1, sbits, hb, _⟩ := fast_simple_roundtrip h h.sum A (List.replicate n 0) (List.replicate n 0) w0 []
+        count length symbols hscan ⟨by omega, hc4⟩ h704 hsum (by simp; omega) (by simp; omega) hu hA
+      exact ⟨_, _, _, hb⟩
+    · obtain ⟨d1, b1, sbits, hb, _⟩ := fast_complex_roundtrip h h.sum (alphabetBits A) A (List.replicate n 0)
+        (List.replicate n 0) w0 [] count length symbols hscan (by omega) h704 hsum (by simp; omega) (by simp; omega) hlA
+      exact ⟨_, _, _, hb⟩
+
+end BV.MetaBlock
+
+namespace BV.MetaBlock
+open BV.Gen BV.Bits BV.Huffman BV.PrefixArith BV.Recoder
+open BV.Lemmas.HuffmanCreate BV.Lemmas.HuffmanEntry BV.Lemmas.HuffmanEntryPoints
+
+/-- **one `BrotliBuildAndStoreHuffmanTreeFast` call round-trips** (NSYM = 1 incl. the empty histogram, the
+simple forms, the static-code-length-code form), from C17's `fast_build_and_store_roundtrip` -/
+theorem codeFacts_of_fast (h : List Nat) (A n : Nat) (w0 w1 : Writer) (d b : List Nat)
+    (h704 : h.length ≤ 704) (hsum : h.sum ≤ 2 ^ 25) (hA1 : 1 ≤ A) (hAn : A ≤ n) (hA : A ≤ 65536)
+    (hz : ∀ i, A ≤ i → h.getD i 0 = 0) (hAb : A ≤ 2 ^ alphabetBits A)
+    (hb : buildAndStoreHuffmanTreeFast h h.sum (alphabetBits A) (List.replicate n 0) (List.replicate n 0) w0
+      = .ok (d, b, w1)) :
+    CodeFacts h h.length A w0 w1 d b := by
+  have p25 : (2 : Nat) ^ 25 = 33554432 := by decide
+  have key := fun rest => fast_build_and_store_roundtrip h A n w0 rest d b w1 h704 hsum hA1 hAn hA hz hb
+  obtain ⟨cb, count, symbols, length, e, hscan, hcount, hlA, _, _, _⟩ := key []
+  have key' : ∀ rest,
+      (2 ≤ count → readPrefixCode A (cb ++ rest) = some (d.take A, rest) ∧
+        GoodDepth h length 14 (List.replicate n 0) d ∧ GoodBits length d (List.replicate n 0) b) ∧
+      (∀ s, h.getD s 0 ≠ 0 → count = 1 →
+          cb = bitsOf 4 1 ++ bitsOf (alphabetBits A) s ∧ d = List.replicate n 0 ∧ b = List.replicate n 0) ∧
+      (count = 0 → cb = bitsOf 4 1 ++ bitsOf (alphabetBits A) 0 ∧ d = List.replicate n 0 ∧ b = List.replicate n 0) := by
+    intro rest
+    obtain ⟨cb', count', symbols', length', e', hscan', _, _, k⟩ := key rest
+    have : cb' = cb := List.append_cancel_left (e'.symm.trans e)
+    rw [this] at k
+    rw [hscan] at hscan'
+    injection hscan' with hscan'
+    injection hscan' with q1 q2
+    injection q2 with q2 q3
+    rw [← q1, ← q3] at k
+    exact k
+  have hcov := fastScan_covers h h h.sum 0 0 [0, 0, 0, 0] count length symbols rfl rfl (by unfold u64; omega) hscan
+  have hsA : ∀ s, h.getD s 0 ≠ 0 → s < A := by
+    intro s hne
+    rcases Nat.lt_or_ge s A with h | h
+    · exact h
+    · exact absurd (hz s h) hne
+  rcases Nat.lt_or_ge count 2 with hnz | hnz
+  · rcases Nat.eq_zero_or_pos count with h0 | h1
+    · obtain ⟨ecb, ed, eb⟩ := (key' []).2.2 h0
+      refine ⟨cb, Code.single 0, e, ?_, ?_⟩
+      · intro rest
+        rw [ecb]
+        exact readCode_single A 0 rest (by omega) (Nat.pow_pos (by decide))
+      · intro s hs hne
+        exfalso
+        have := BV.Lemmas.HuffmanStoreTree.one_nz h s hs hne
+        omega
+    · obtain ⟨s, hs, hne⟩ := exists_nz_of_filter h (by omega)
+      have hsa := hsA s hne
+      obtain ⟨ecb, ed, eb⟩ := (key' []).2.1 s hne (by omega)
+      refine ⟨cb, Code.single s, e, ?_, ?_⟩
+      · intro rest
+        rw [ecb]
+        exact readCode_single A s rest hsa (by omega)
+      · intro s' hs' hne'
+        have hs'a := hsA s' hne'
+        obtain ⟨ecb', _, _⟩ := (key' []).2.1 s' hne' (by omega)
+        have hss : s' = s := by
+          have := ecb'.symm.trans ecb
+          exact bitsOf_inj _ _ _ (by omega) (by omega) (List.append_cancel_left this)
+        rw [hss, ed, eb]
+        exact symIO_single n s (by omega)
+  · obtain ⟨_, hg, hgb⟩ := (key' []).1 hnz
+    have hdl : d.length = n := by rw [hg.hlen]; simp
+    have hbl : b.length = n := by rw [hgb.1]; simp
+    have hframe : ∀ i, length ≤ i → d.getD i 0 = 0 := by
+      intro i hi
+      rw [List.getD_eq_getElem?_getD, hg.hframe i hi, ← List.getD_eq_getElem?_getD, getD_replicate_zero]
+    have hsplit : d.take n = d.take length ++ List.replicate (n - length) 0 :=
+      take_split_zeros d length n (by omega) (by omega) (fun i hi _ => hframe i hi)
+    have hall14 : ∀ x ∈ d.take length, x ≤ 14 := by
+      intro x hx
+      obtain ⟨i, hi, rfl⟩ := List.getElem_of_mem hx
+      rw [List.length_take] at hi
+      have := hg.hlim i (by omega)
+      rw [List.getD_eq_getElem?_getD, List.getElem?_eq_getElem (by omega)] at this
+      simpa [List.getElem_take] using this
+    have hk15 : kraftSum 15 (d.take n) = 2 ^ 15 := by
+      rw [hsplit, kraft_append_zeros]
+      exact BV.Props.C17.kraft_limit_mono _ hall14 hg.hkraft
+    have hlen_le : length ≤ h.length := by
+      rcases Nat.lt_or_ge h.length length with hlt | hge
+      · exfalso
+        -- `length ≤ A`, and a scan that stops at `length` has passed `length` entries
+        obtain ⟨_, hlh, _, _⟩ := BV.Lemmas.HuffmanSimple.fastScan_full h h h.sum 0 0 [0, 0, 0, 0] count length symbols rfl hscan
+        simp only [Nat.sub_zero, Nat.zero_add, Nat.zero_le, Nat.max_eq_right] at hlh
+        omega
+      · exact hge
+    have h2d : 2 ≤ ((d.take n).filter (· ≠ 0)).length := by
+      rw [hsplit, filter_append_zeros]
+      have hfl : (h.filter (· ≠ 0)).length = ((h.take length).filter (· ≠ 0)).length := by
+        conv => lhs; rw [← List.take_append_drop length h]
+        rw [List.filter_append]
+        have : (h.drop length).filter (· ≠ 0) = [] := by
+          rw [List.filter_eq_nil_iff]
+          intro a ha
+          obtain ⟨i, hi, hai⟩ := List.getElem_of_mem ha
+          have := hcov (length + i) (by omega)
+          rw [List.getD_eq_getElem?_getD] at this
+          rw [List.getElem_drop] at hai
+          rw [List.getElem?_eq_getElem (by simp at hi; omega)] at this
+          simp only [Option.getD_some] at this
+          simp [← hai, this]
+        rw [this, List.append_nil]
+      rw [filter_nz_congr (d.take length) (h.take length) (by rw [List.length_take, List.length_take]; omega) (by
+        intro v hv
+        rw [List.length_take] at hv
+        rw [getD_take d length v (by omega), getD_take h length v (by omega)]
+        exact hg.hsupp v (by omega)), ← hfl, ← hcount]
+      exact hnz
+    refine ⟨cb, Code.lens (d.take A), e, ?_, ?_⟩
+    · intro rest
+      obtain ⟨hr, _, _⟩ := (key' rest).1 hnz
+      obtain ⟨s, hs, hne⟩ := exists_nz_of_filter h (by omega)
+      have hsa := hsA s hne
+      have hsl : s < length := by
+        rcases Nat.lt_or_ge s length with h | h
+        · exact h
+        · exact absurd (hcov s h) hne
+      exact readCode_of_prefix A _ rest _ hr ⟨s, by rw [getD_take d A s hsa]; exact (hg.hsupp s hsl).mpr hne⟩
+    · intro s hs hne
+      have hsa := hsA s hne
+      have hsl : s < length := by
+        rcases Nat.lt_or_ge s length with h | h
+        · exact h
+        · exact absurd (hcov s h) hne
+      refine symIO_of_lens d b n A s hAn (by omega) (by omega) (fun i hi _ => hframe i (by omega)) ?_ hk15 ?_ h2d
+        (by omega) ((hg.hsupp s hsl).mpr hne)
+      · intro v _
+        rcases Nat.lt_or_ge v length with hv | hv
+        · have := hg.hlim v hv; omega
+        · rw [hframe v hv]; omega
+      · intro i _ h0
+        have hil : i < length := by
+          rcases Nat.lt_or_ge i length with h | h
+          · exact h
+          · exact absurd (hframe i h) h0
+        have := hgb.2.2 i hil
+        rw [if_pos h0] at this
+        rw [this, hsplit, canonical_append_zeros _ _ _ (by rw [List.length_take]; omega)]
+
+end BV.MetaBlock
